@@ -123,7 +123,13 @@ class DataObjectProperty(DopBase):
         if not isinstance(physical_value, (int, float, str, BytesTypes)):
             odxraise(f"Invalid type '{type(physical_value).__name__}' for physical value. "
                      f"(Expect atomic type!)")
-        internal_value = self.compu_method.convert_physical_to_internal(physical_value)
+        try:
+            internal_value = self.compu_method.convert_physical_to_internal(physical_value)
+        except (ArithmeticError, ValueError) as e:
+            # e.g., non-finite floating point values or poles of
+            # rational functions
+            raise EncodeError(f"DOP {self.short_name} could not convert the physical value "
+                              f"{repr(physical_value)} to its internal representation: {e}") from e
         self.diag_coded_type.encode_into_pdu(internal_value, encode_state)
 
     def decode_from_pdu(self, decode_state: DecodeState) -> ParameterValue:
@@ -135,7 +141,13 @@ class DataObjectProperty(DopBase):
         internal = self.diag_coded_type.decode_from_pdu(decode_state)
 
         if self.compu_method.is_valid_internal_value(internal):
-            return self.compu_method.convert_internal_to_physical(internal)
+            try:
+                return self.compu_method.convert_internal_to_physical(internal)
+            except (ArithmeticError, ValueError) as e:
+                # e.g., non-finite floating point values or poles
+                # of rational functions
+                raise DecodeError(f"DOP {self.short_name} could not convert the coded value "
+                                  f"{repr(internal)} to its physical representation: {e}") from e
 
         internal_to_phys = self.compu_method.compu_internal_to_phys
         default_value = internal_to_phys.compu_default_value if internal_to_phys else None
